@@ -10,7 +10,7 @@ CLAIMED = {
         "text": "Every interval operation the bound analyser is built from (add, sub, neg, scale, div_by, abs, intersection with tolerance, NaN-free sums, "
                 "declared-domain boxes, required range of a comparison) is proved, for all extended-real inputs, to enclose the exact real result and never to produce NaN; "
                 "on top of these, BoundsAnalyzer::bounds_of is proved by structural induction to return a NaN-free range that contains the value of the expression at EVERY assignment inside the variable box "
-                "(Number, Variable, Abs, all binary operators incl. the constant-scale and constant-division forms, negation, every logic connective; the Min / Max arms are assumed arms checked by a bounded search only). "
+                "(every arm: Number, Variable, Abs, Min and Max over any number of operands, all binary operators incl. the constant-scale and constant-division forms, negation, every logic connective). "
                 "NOT decided yet: the backward tightening rules (propagate / tighten_expression / tighten_variable), publication into the domain with integer rounding, the step limit. "
                 "Proof level because the statement is a for-all over reals and infinities that no grid of tests covers.",
         "note": "Trusted: prelude/f64_layer.rs (f64 treated as exact extended reals, IEEE special-value tables). Rounding error of finite arithmetic is out of reach and said so.",
@@ -70,7 +70,7 @@ CLAIMED["C01"] = {
             "Supporting contracts proved on the real code: requirement reversal / scaling law, the linear-form algebra over the IndexMap view, expression rebuilding, queueing a constraint / declaring an auxiliary, "
             "and Linearizer::emit_constraint: the emitted row together with what the grown context demands implies the source constraint (requirement chosen from the comparison, constant moved across with its sign). "
             "NOT decided and listed in the evidence as assumed arms: min/max selection, logic reification and assertion lowering, the model-level constraint loop and domain publication, the witness threading through nested auxiliaries, termination.",
-    "note": "Trusted: prelude/f64_layer.rs (floats as exact extended reals), prelude/smap.rs (IndexMap<String,_> view), prelude/std_stubs.rs. BoundsAnalyzer::bounds_of is used through its contract, proved in U07.fwd (Min/Max arms assumed there). "
+    "note": "Trusted: prelude/f64_layer.rs (floats as exact extended reals), prelude/smap.rs (IndexMap<String,_> view), prelude/std_stubs.rs. BoundsAnalyzer::bounds_of is used through its contract, proved in U07.fwd. "
             "Rules: format! abstracted to opaque strings (R6), auxiliary counters abstracted (R21), masked arms end in a diverging stub.",
     "technique": "Verus contracts woven into Exp::linearize and its helpers extracted from linearizer.rs on every run; arm masking; ghost semantics oracle spec/semantics.rs",
     "design_ref": "DESIGN.md §5 C01",
@@ -131,7 +131,7 @@ CLAIMED["C08"] = {
             "The row-name de-duplication loop of Linearizer::linearize (a statement slice lifted verbatim from the function) is proved to leave non-empty names pairwise distinct, to keep the first use of every user-written name, to keep unnamed rows unnamed and to give a renamed row a name no user wrote. "
             "Sortedness / key-set equality of the variable list, presence of every referenced variable, one finite coefficient per variable and the missing-bounds error are additionally checked on the whole real Linearizer::linearize by a BOUNDED search over a family of models (labelled, not counted as proved). "
             "NOT decided deductively: the used-variable collection and sort (iterator chains), auxiliary-name collision freedom (names are format! strings abstracted to opaque values by rule R6), the min/max and logic arms, termination of the name search.",
-    "note": "Trusted: prelude/f64_layer.rs, prelude/smap.rs, prelude/std_stubs.rs. BoundsAnalyzer::bounds_of is used through its contract (proved in U07.fwd, Min/Max arms assumed there).",
+    "note": "Trusted: prelude/f64_layer.rs, prelude/smap.rs, prelude/std_stubs.rs. BoundsAnalyzer::bounds_of is used through its contract (proved in U07.fwd).",
     "technique": "Verus contracts on extracted extract_coeffs / add_constraint / declare_variable / Exp::linearize arms (finite-or-error postcondition) and loop invariants on the name de-duplication slice of Linearizer::linearize; bounded executable-postcondition search on the whole function",
     "design_ref": "DESIGN.md §5 C08",
 }
